@@ -33,6 +33,8 @@ def performs (handler failAt : String) : Option Bool :=
     | _ => []
   if reads.isEmpty then none
   else if failAt == "-" then some false
+  -- conditions under which NO read fails and the range must be handled (an event that can never be decoded)
+  else if handler == "subretry" && failAt == "badretry" then some false
   else if reads.contains failAt then some true
   else none
 
@@ -71,6 +73,11 @@ def handle (op : String) (args : List String) (impl : String) : Option Verdict :
       if (items c ",").contains "m" then "err" else s!"ok:{((items c ",").filter (· == "r")).length}"
     let m := ";".intercalate exp
     return ⟨m, impl == m, s!"evmdeposits:calls={min cs.length 4}:unresolvable={calls.contains 'u' || calls.contains 'm'}"⟩
+  | "btcdeposits", [blocks] => some <| Id.run do
+    -- every block forwards exactly its well-formed deposits, wherever the rejected / panicking / foreign transactions sit
+    let bs := blocks.splitOn "/"
+    let m := ";".intercalate (bs.map fun b => s!"ok:{((items b ",").filter (· == "g")).length}")
+    return ⟨m, impl == m, s!"btcdeposits:blocks={min bs.length 3}:rejected={blocks.contains 'e'}:panics={blocks.contains 'p'}"⟩
   | "hfetch", [handler, failAt] => some <| Id.run do
     let some fails := performs handler failAt | return bad
     -- a node that answers without error and without a block: the nil dereference is a panic (process death), never success
